@@ -471,7 +471,7 @@ func c13Run(c *core.Ctx) {
 	}
 	// TAI lists: all lists of 1..6 over {A,B} x {000001, fffffe}; 7..16 entries: all-same and single deviations
 	// PLMN alphabet: a base PLMN, one sharing its MCC, one sharing its MNC, one differing in both (2- and 3-digit MNCs)
-	taiAlpha := []c13Tai{{"208", "93", "000001"}, {"208", "93", "fffffe"}, {"208", "94", "000001"}, {"262", "93", "000002"}, {"001", "001", "000001"}, {"001", "001", "fffffe"}}
+	taiAlpha := []c13Tai{{"208", "93", "000001"}, {"208", "93", "fffffe"}, {"208", "94", "000001"}, {"262", "93", "000002"}, {"001", "001", "000001"}, {"001", "001", "fffffe"}, {"001", "01", "000004"}, {"208", "093", "000003"}}
 	maxT := 4
 	if thorough {
 		maxT = 6
@@ -628,7 +628,7 @@ func init() {
 			if tier == "thorough" {
 				n, t = "8", "6"
 			}
-			return "all 256 SST x 6 SD values; all requested-NSSAI lists of 1.." + n + " entries over a 5-entry alphabet covering every legal S-NSSAI length (1,2,4,5,8); every declared entry length 0..255 at every position of a 3-entry list with truncated tails (error half); rejected NSSAI with 0..4 entries per cause; all TAI lists of 1.." + t + " entries over a 6-entry alphabet (4 PLMNs: same, same MCC, same MNC, both different) and 7..16 entries with every single-position deviation; service-area lists of 1..16 TACs in every composition over 1..3 areas, both restriction types; LADN entries and LADN-indication lists. Oracle: reference decoders/encoders written from TS 24.501 9.11.2.8, 9.11.3.37, 9.11.3.46, 9.11.3.9, 9.11.3.49, 9.11.3.29/30 (refconv) must recover exactly the input lists from the library's encoders, and the library's decoders must recover reference-encoded lists."
+			return "all 256 SST x 6 SD values; all requested-NSSAI lists of 1.." + n + " entries over a 5-entry alphabet covering every legal S-NSSAI length (1,2,4,5,8); every declared entry length 0..255 at every position of a 3-entry list with truncated tails (error half); rejected NSSAI with 0..4 entries per cause; all TAI lists of 1.." + t + " entries over an 8-entry alphabet (6 PLMNs: same, same MCC, same MNC, both different, and 2- vs 3-digit MNCs with equal numeric value) and 7..16 entries with every single-position deviation; service-area lists of 1..16 TACs in every composition over 1..3 areas, both restriction types; LADN entries and LADN-indication lists. Oracle: reference decoders/encoders written from TS 24.501 9.11.2.8, 9.11.3.37, 9.11.3.46, 9.11.3.9, 9.11.3.49, 9.11.3.29/30 (refconv) must recover exactly the input lists from the library's encoders, and the library's decoders must recover reference-encoded lists."
 		},
 		Assumptions: []string{"the DNN inside LADN is treated as opaque octets (only the length framing is asserted)"},
 		Finish:      func(m *core.Merged, cov map[string]any) { cov["distinct_nontrivial"] = m.Counters["evaluations"] },
